@@ -14,9 +14,10 @@
   patterns are reported `unsupported` (see `supported`).  Everything works on `List Char`: regex-lite only matches at
   char boundaries of valid UTF-8 and its look-around byte tests coincide with the char tests below.
 
-  Outcomes of parsing: `ok` / `err` (exactly when `Regex::new` fails) / `unsup` (not modelled; the driver answers
-  `unmodelled`).  Not modelled: flag `x`, non-ASCII capture group names, nullable bodies under unbounded repetition,
-  patterns whose compiled size could come near regex-lite's 10 MiB limit.
+  Outcomes of parsing: `ok` / `err` (exactly when `Regex::new` fails: syntax errors, the nest limit of 50, the
+  10 MiB size limit of the compiled NFA, counted exactly via `Item.states`/`Item.extra`) / `unsup` (not modelled;
+  the driver answers `unmodelled`).  Not modelled: flag `x`, non-ASCII capture group names, nullable bodies under
+  unbounded repetition.
 -/
 import SlacModel.Regex
 set_option autoImplicit false
@@ -96,7 +97,7 @@ def repOpt (body : M) (greedy : Bool) : Nat → M
     else (k cur caps).orElse fun _ => body cur caps fun c' caps' => repOpt body greedy n c' caps' k
 
 /-- unbounded loop (`c_at_least`); the first argument is fuel, `rest.length` suffices because every further
-    iteration has to consume at least one char (always true for the bodies `supported` admits) -/
+    iteration has to consume at least one char (always true for the bodies `supported` lets through) -/
 def repStar (body : M) (greedy : Bool) : Nat → M
   | 0, cur, caps, k => k cur caps
   | f + 1, cur, caps, k =>
